@@ -126,7 +126,7 @@ func checkC14(p *Prog, r *Report) {
 		if errEx != nil {
 			for _, ret := range returnsOf(ew) {
 				if len(ret.Results) > 0 {
-					v := ret.Results[len(ret.Results)-1]
+					v := res(ret, len(ret.Results)-1)
 					if flowsFrom(v, errEx, 0) {
 						returned = true
 					}
@@ -161,7 +161,7 @@ func checkC14(p *Prog, r *Report) {
 			if len(ret.Results) < 2 {
 				continue
 			}
-			v := ret.Results[0]
+			v := res(ret, 0)
 			if isNilConst(v) {
 				continue
 			}
@@ -186,11 +186,11 @@ func checkC14(p *Prog, r *Report) {
 		for _, c := range callsTo(f, a.ExecCore) {
 			wr := stripConv(c.Common().Args[len(c.Common().Args)-1])
 			for _, ret := range returnsOf(f) {
-				if !isNilConst(ret.Results[0]) {
-					if ret.Results[0] == wr {
+				if !isNilConst(res(ret, 0)) {
+					if res(ret, 0) == wr {
 						r.OK(p.FuncName(f)+":same-buffer", p.InstrPos(ret), "the buffer handed to the executor is the one returned")
 					} else {
-						r.Bad(p.FuncName(f)+":same-buffer", p.InstrPos(ret), "returns %s but executed into %s", p.VN(ret.Results[0]), p.VN(wr))
+						r.Bad(p.FuncName(f)+":same-buffer", p.InstrPos(ret), "returns %s but executed into %s", p.VN(res(ret, 0)), p.VN(wr))
 					}
 				}
 			}
